@@ -243,6 +243,9 @@ func (r *Reader) parseWorksheets() error {
 	return nil
 }
 
+// maxSheetCells bounds the dense cell grid allocated for one worksheet.
+const maxSheetCells = 20000000
+
 // parseWorksheet parses a single worksheet.
 func (r *Reader) parseWorksheet(data []byte, name string, index int) (*Sheet, error) {
 	var ws worksheetXML
@@ -293,6 +296,12 @@ func (r *Reader) parseWorksheet(data []byte, name string, index int) (*Sheet, er
 
 	sheet.MaxRow = maxRow - 1 // Convert to 0-indexed
 	sheet.MaxCol = maxCol
+
+	// The grid below is dense: refuse dimensions that only a corrupt (or hostile)
+	// reference such as XFD1048576 in an otherwise empty sheet would produce.
+	if maxRow < 0 || maxCol < 0 || int64(maxRow)*int64(maxCol+1) > maxSheetCells {
+		return nil, fmt.Errorf("sheet %q is too large for a dense grid: %d rows x %d columns", name, maxRow, maxCol+1)
+	}
 
 	// Initialize rows
 	sheet.Rows = make([][]Cell, maxRow)
